@@ -87,6 +87,24 @@ func H07_seq() {
 			}
 		}
 	}
+	if variant == 3 {
+		// the actual bitmap of the fresh iterator is replaced by a subset of it
+		oi, ok := it.(segment.OptimizablePostingsIterator)
+		vAssert(ok, "optimizable")
+		if bm := oi.ActualBitmap(); bm != nil {
+			sub := roaring.New()
+			var kept []sHit
+			for _, h := range live {
+				if vBool(fmt.Sprint("keep", h.doc)) {
+					sub.Add(uint32(h.doc))
+					kept = append(kept, h)
+				}
+			}
+			oi.ReplaceActual(sub)
+			live = kept
+			vAssert(oi.ActualBitmap().GetCardinality() == uint64(len(live)), "replaced-card")
+		}
+	}
 	pos := 0
 	last := int64(-1)
 	L := 1 + vChoice("L", vParam("maxL", 2))
